@@ -17,7 +17,7 @@ func init() {
 	register(&mon.Spec{
 		ID:    "C08",
 		Level: "exploration",
-		Rule: "sequential call sequences (1-60 calls) on p9p.SFileSys(instrumented FS) compared call-by-call with the reference fid-table model (DESIGN App. A): PRNG sequences over attach/walk/open/create/read/write/stat/wstat/clunk/remove/auth with fids from the tiny pool {0,1,2,3,7,NOFID} " +
+		Rule: "(besides the sequences, 400+ queued pairs: a request issued on a fid while another request on it is still inside the file system, judged by the release/overlap monitors of C13) sequential call sequences (1-60 calls) on p9p.SFileSys(instrumented FS) compared call-by-call with the reference fid-table model (DESIGN App. A): PRNG sequences over attach/walk/open/create/read/write/stat/wstat/clunk/remove/auth with fids from the tiny pool {0,1,2,3,7,NOFID} " +
 			"(duplicates, never-bound and rebinding are frequent), name lists from the path alphabet (valid, invalid, missing, partial, '..'), FS behaviours found/not-found/partial/error/nil-result selected by name and by injected call faults, all 256 open-mode bytes; " +
 			"plus a systematic part enumerating every ordered pair of operation kinds x fid relation (same, other bound, unbound, NOFID) after a fixed prologue. After every call: outcome and results, the exact FS calls (which handle, which arguments), and — through the verif hook — the whole fid table (bound set, handle, open flag, mode, nothing locked) must match the model; a call that has not returned at quiescence is a hang. " +
 			"non-trivial = the sequence reaches >= 3 distinct table states; distinct by hash of the model-state trace",
@@ -29,7 +29,7 @@ func init() {
 		Shards:   shards(8, 16),
 		Timeout:  timeouts(12*time.Minute, 90*time.Minute),
 		MinEvals: 2000,
-		Required: []string{"cover:attach-ok", "cover:attach-dupfid", "cover:attach-with-afid", "cover:walk-dupfid", "cover:walk-partial", "cover:walk-complete-newfid", "cover:walk-complete-inplace", "cover:walk-unknown-fid",
+		Required: []string{"queued_pair_runs", "cover:attach-ok", "cover:attach-dupfid", "cover:attach-with-afid", "cover:walk-dupfid", "cover:walk-partial", "cover:walk-complete-newfid", "cover:walk-complete-inplace", "cover:walk-unknown-fid",
 			"cover:clone-ok", "cover:open-already-open", "cover:open-file-ok", "cover:open-dir-ok", "cover:create-file-ok", "cover:create-dir-ok", "cover:read-not-open", "cover:read-mode-forbids", "cover:read-file-ok",
 			"cover:write-mode-forbids", "cover:write-file-ok", "cover:clunk-ok", "cover:remove-ok", "cover:clunk-unknown-fid", "cover:clunk-fs-error-still-unbinds", "cover:remove-fs-error-still-unbinds", "cover:walk-fs-error", "table_comparisons", "pair_cases"},
 		Run: runC08,
@@ -277,6 +277,14 @@ func seqRun(w *mon.W, ops []fsx.Op, opt seqOpts) seqResult {
 }
 
 func runC08(w *mon.W) {
+	// requests pipelined on one fid: B arrives while A (a clunk, remove, in-place walk, create,
+	// or a mere use) is still inside the file system; whatever B then does must be what the
+	// state machine prescribes for the state A leaves behind (the machinery of C13's queued pairs)
+	for i := 0; i < w.Scale(400, 40000); i++ {
+		if w.Mine(i) {
+			c13Queued(w, i)
+		}
+	}
 	total := w.Scale(2400, 1200000)
 	for i := 0; i < total; i++ {
 		if !w.Mine(i) {
